@@ -75,8 +75,12 @@ Definition case_ok (c : case) : bool :=
       forallb (in_range (length verts)) tris &&
       forallb axis_ok faces &&
       (* implicit per-triangle normal: three equal rows, the unit right-hand normal *)
-      forallb2 (fun S rows => Nat.eqb (length rows) 3 &&
-                              forallb (fun r => close_unit S (qv oden r)) rows) faces face_obs &&
+      (* (not observed when the set already carries normals, e.g. regenerated before binding) *)
+      (match face_obs with
+       | [] => true
+       | _ => forallb2 (fun S rows => Nat.eqb (length rows) 3 &&
+                                      forallb (fun r => close_unit S (qv oden r)) rows) faces face_obs
+       end) &&
       (* generated normals: one row per vertex, indexed like the vertices *)
       Nat.eqb (length n_obs) (length verts) &&
       forallb2 tri_eqb (gen_normal_index tris) nidx_obs &&
